@@ -331,7 +331,7 @@ class C10(Prop):
     level_note = 'Exhaustive only inside the stated bound; layer names are distinct; helper interpreters are trusted to run the same code.'
     rule = ('func: exhaustive DAGs on <=4 layers x bases-tuple orders x instance/class layers x selected subsets '
             '(with/without unit layer), all input permutations inside each case, plus 3 other PYTHONHASHSEEDs; '
-            'Hypothesis DAGs on 5..6 layers. e2e: generated worlds run twice (modules renamed/reordered, suites '
+            'Hypothesis DAGs on 5..6 layers, half of them with names that differ only in case / are prefixes of each other. e2e: generated worlds run twice (modules renamed/reordered, suites '
             'reversed, --layer options reversed). Non-trivial = >=3 selected layers and >=1 base edge. Enumerated '
             'cases are distinct by construction.')
     assumptions = ('layer names are distinct within a run', 'the order of a bases tuple is part of the layer graph')
